@@ -9,6 +9,9 @@ is read back.
     (a) no holder ever has, for a commit, a note other than the one its author's clone wrote for it
         (blob ids compared with what the writing clone produced at commit time),
     (b) keys on the remote never disappear,
+    (e) when a fetch / pull through the proxy returns (by any exit of the pull post hook: pull failed, HEAD
+        unchanged, HEAD moved; every connection to the remote slowed down), the clone has every note the
+        remote had when the command started,
     (d) keys of a clone's own refs/notes/ai never disappear (a push / fetch / commit of the clone, or
         of anybody else, never makes the clone forget a note it had),
     (c) whenever, at user-command granularity, every clone has pushed after its last commit and
@@ -46,7 +49,7 @@ GEN_FILES = ["GenSync"]
 DRIVERS = ["sync"]
 THEOREMS = ["C10_no_loss", "C10_single_writer_values", "C10_push_atomic_succeeds",
             "C10_rejected_only_when_pushes_overlap", "C10_converge",
-            "C10_converge_sequential", "C10_first_sync", "C10_retry_succeeds", "C10_PushNotes_is_spreads",
+            "C10_converge_sequential", "C10_first_sync", "C10_pull_returns_synced", "C10_retry_succeeds", "C10_PushNotes_is_spreads",
             "C10_retry_budget_tight", "C10_converge_from_pushed", "C10_race_repaired", "C10_ours_example",
             "C10_nonvacuous", "C10_code_order", "C10_commit_during_sync_safe", "C10_copy_window_refuted"]
 CLAIM = {
@@ -93,24 +96,28 @@ SYNC_NAMES = ("notes-push-merge", "notes-push", "notes-fetch-merge")
 
 # ---------------------------------------------------------------------------------------------
 # schedules.  token = (op, clone):
-#   c commit | p push | f fetch | l pull | j join (late clone through the proxy)
+#   c commit | p push | f fetch | l pull (HEAD stays) | L pull --ff-only of the next clone's branch (HEAD moves, or the
+#   pull fails) | j join (late clone through the proxy)
 #   pf pm pe : a push split at the rendezvous points | ff fe : a fetch split before its merge
 # ---------------------------------------------------------------------------------------------
 RETRY_ROUNDS = 3     # NOTES_PUSH_ATTEMPTS of the repaired push_authorship_notes
 
 
-def model_tokens(tokens):
+def model_tokens(tokens, kinds=None):
     """user-level tokens for the model driver, which expands them in the order of the CURRENT source.
-    A split push: ps? pf pm (pr pm)* pe; the driver is told the number of the round."""
+    A split push: ps? pf pm (pr pm)* pe; the driver is told the number of the round.  kinds[t] = the exit
+    by which the real pull at position t left its post hook (failed / unchanged / moved)."""
     out, k, started, rnd = [], 0, set(), {}
-    for op, i in tokens:
+    for t, (op, i) in enumerate(tokens):
         if op == "c":
             k += 1
             out.append(["commit", i, k, 100 + k])
         elif op == "p":
             out.append(["push", i])
-        elif op in ("f", "l", "j"):
+        elif op in ("f", "j"):
             out.append(["fetch", i])
+        elif op in ("l", "L"):
+            out.append(["pull", i, (kinds or {}).get(t) or ("unchanged" if op == "l" else "moved")])
         elif op == "ps":
             started.add(i)
             out.append(["p0", i])
@@ -183,7 +190,7 @@ def user_level_synced(tokens, n):
         for t, (op, j) in enumerate(tokens):
             if j != i or t <= last_push:
                 continue
-            if op in ("f", "l", "j"):
+            if op in ("f", "l", "L", "j"):
                 ok = True
             elif op == "ff":
                 begun = t
@@ -212,7 +219,7 @@ def well_formed(tokens, n):
         cur = st[i]
         if op == "c":
             continue
-        if op in ("p", "f", "l", "ps", "ff"):
+        if op in ("p", "f", "l", "L", "ps", "ff"):
             if cur is not None:
                 return False
             if op in ("ps", "ff"):
@@ -273,6 +280,7 @@ class CloneSim(Sim):
                     '  i=0\n'
                     '  while [ -e "$d/wire.hold" ] && [ $i -lt 6000 ]; do sleep 0.01; i=$((i+1)); done\n'
                     'fi\n'
+                    'if [ -e "$d/slow" ]; then sleep 0.3; fi\n'
                     'exec git-upload-pack "$@"\n')
         os.chmod(self.wrapper, 0o755)
 
@@ -429,10 +437,21 @@ class World:
             rc, out, err = cl.git("fetch", "-q", "origin")
             if rc != 0:
                 self.engine_errors.append(f"fetch {i} rc={rc}: {err[-300:]}")
-        elif op == "l":
-            rc, out, err = cl.git("pull", "-q", "--no-rebase", "origin", "main")
-            if rc != 0:
-                self.engine_errors.append(f"pull {i} rc={rc}: {err[-300:]}")
+        elif op in ("l", "L"):
+            # every connection to the remote is slowed down, so that the background notes fetch (two
+            # connections) outlasts git's own pull (one): an exit of the post hook that does not wait shows
+            slow = os.path.join(cl.sync, "slow")
+            open(slow, "w").close()
+            h0 = cl.head()
+            if op == "l":
+                rc, out, err = cl.git("pull", "-q", "--no-rebase", "origin", "main")
+                if rc != 0:
+                    self.engine_errors.append(f"pull {i} rc={rc}: {err[-300:]}")
+            else:
+                other = self.clones[(i + 1) % self.n]
+                rc, out, err = cl.git("pull", "-q", "--ff-only", "origin", other.branch)
+            os.remove(slow)
+            res["pull"] = "failed" if rc != 0 else ("unchanged" if cl.head() == h0 else "moved")
         elif op == "ps":
             cl.start_async(["push", "-q", "origin", cl.branch], ["wire", "notes-push-merge", "notes-push"])
             if cl.wait_point() != "wire":
@@ -511,7 +530,7 @@ def scenario(args):
     base, name, n, tokens, with_closing = args
     late = {i for op, i in tokens if op == "j"}
     w = World(base, name, n)
-    fails, obs, pushes = [], [], []
+    fails, obs, pushes, kinds = [], [], [], {}
     try:
         for i in range(n):
             if i not in late:
@@ -521,6 +540,7 @@ def scenario(args):
         prev_local = [{} for _ in range(n)]
         synced_points = []
         for t, (op, i) in enumerate(full):
+            remote_at_start = dict(prev_remote)
             r = w.step(op, i)
             rm, ls, bad = w.observe()
             for b in bad:
@@ -533,6 +553,14 @@ def scenario(args):
                 gone = [k for k in prev_local[c] if k not in l]
                 if gone:
                     fails.append({"what": f"ORACLE(d) clone {c} lost its notes of commits {gone}", "at": t})
+            if op in ("f", "l", "L", "j"):
+                # oracle (e): when a fetch / pull returns, the clone has every note the remote had when it started
+                missing = [k for k in remote_at_start if k not in ls[i]]
+                if missing:
+                    fails.append({"what": f"ORACLE(e) {'pull' if op in ('l', 'L') else 'fetch'} of clone {i} returned "
+                                          f"({r.get('pull', 'ok')}) without the remote's notes of commits {missing}", "at": t})
+            if "pull" in r:
+                kinds[t] = r["pull"]
             prev_local = ls
             obs.append((rm, ls))
             pushes.append(r["pushed"])
@@ -549,7 +577,7 @@ def scenario(args):
                         diffs.append((f"clone {c}", sorted(set(want) - set(l)), sorted(k for k in l if l[k] != want.get(k))))
                 synced_points.append({"at": t, "closing": at_end and with_closing and not at_end_of_body,
                                       "diffs": diffs})
-        return {"name": name, "n": n, "tokens": tokens, "obs": obs, "pushes": pushes, "fails": fails,
+        return {"name": name, "n": n, "tokens": tokens, "obs": obs, "pushes": pushes, "fails": fails, "kinds": kinds,
                 "synced": synced_points, "errors": w.engine_errors,
                 "log": [c.log for c in w.clones] if (fails or w.engine_errors) else None}
     finally:
@@ -659,6 +687,20 @@ def enum_own_commit():
     return out
 
 
+def enum_pulls():
+    """pulls by every exit of the post hook while the remote holds notes the clone lacks: HEAD unchanged (pull of
+    main), HEAD moved (fast-forward to another clone's branch), failed (--ff-only of a diverged branch, or of a
+    branch that is not on the remote yet)"""
+    out = []
+    for tail in ([("l", 1)], [("L", 1)], [("c", 1), ("L", 1)], [("c", 1), ("l", 1)], [("L", 1), ("c", 1), ("p", 1), ("l", 0)],
+                 [("l", 1), ("c", 0), ("p", 0), ("l", 1)], [("f", 1)], [("L", 1), ("c", 0), ("p", 0), ("L", 1)]):
+        out.append([("c", 0), ("p", 0)] + tail)
+        out.append([("c", 0), ("p", 0), ("c", 0), ("p", 0)] + tail)
+    out.append([("c", 0), ("L", 1), ("p", 0), ("L", 1)])           # branch not on the remote: failed pull
+    out.append([("c", 0), ("p", 0), ("c", 1), ("p", 1), ("l", 2), ("L", 2)])
+    return out
+
+
 def gen_random(r, n, length):
     toks, st, joined = [], {i: None for i in range(n)}, {i: True for i in range(n)}
     late = n - 1 if (n >= 3 and r.chance(1, 3)) else None
@@ -686,7 +728,7 @@ def gen_random(r, n, length):
         elif cur == "ff":
             toks.append(("fe", i)); st[i] = None
         else:
-            op = r.weighted([(30, "c"), (18, "p"), (14, "f"), (6, "l"), (12, "pf"), (12, "ps"), (10, "ff")])
+            op = r.weighted([(30, "c"), (18, "p"), (12, "f"), (6, "l"), (4, "L"), (12, "pf"), (12, "ps"), (10, "ff")])
             toks.append((op, i))
             if op in ("pf", "ps", "ff"):
                 st[i] = op
@@ -708,11 +750,11 @@ def gen_random(r, n, length):
 def model_runs(runs):
     """runs: list of (name, n, full token list) -> {name: per-token (remote, locals, outcome), fuel, known, window}"""
     cases = []
-    for name, n, full in runs:
-        cases.append((name, f"{n} {C.sx(model_tokens(full))}"))
+    for name, n, full, kinds in runs:
+        cases.append((name, f"{n} {C.sx(model_tokens(full, kinds))}"))
     res = C.run_cases(C.driver_path("sync"), "c10-run", cases)
     out = {}
-    for name, n, full in runs:
+    for name, n, full, _kinds in runs:
         line = res.get(name)
         if line is None or line.startswith("driver-exception"):
             out[name] = None
@@ -800,6 +842,8 @@ def run(ctx):
             plans.append((f"t{k}", n, gen_random(rr, n, rr.range(8, 20)), True, f"random{n}"))
     for k, toks in enumerate(enum_retries()):
         plans.append((f"y{k}", 2, toks, True, "retry-rounds"))
+    for k, toks in enumerate(enum_pulls()):
+        plans.append((f"u{k}", 3 if any(i == 2 for _, i in toks) else 2, toks, True, "pull-exits"))
     plans.append(("k1", 2, K1_WITNESS, False, "witness"))
     plans.append(("k3", 2, K3_WITNESS, False, "witness"))
     for p in plans:
@@ -812,7 +856,8 @@ def run(ctx):
 
     mod = {}
     if ctx.model_ok:
-        mod = model_runs([(name, n, list(toks) + (closing(n) if wc else [])) for name, n, toks, wc, _ in plans])
+        mod = model_runs([(name, n, list(toks) + (closing(n) if wc else []), rs.get("kinds", {}))
+                          for (name, n, toks, wc, _), rs in zip(plans, res)])
 
     fam_count, tok_count, outcomes = {}, {}, {"push_done": 0, "push_skipped": 0}
     tie_bad, known_tie_bad, fuel_bad, reject_outside, window_bad = [], [], [], [], []
